@@ -396,7 +396,7 @@ func (c04) Exec(seed int64, i int, tier string) Record {
 	rec.Info = map[string]interface{}{"accessor": acc, "jnum": jn}
 	snap := DeepCopy(doc)
 	snapText := ValSexp(doc)
-	cfg := Config(acc, nil)
+	cfg := ConfigScramble(acc) // aggregate functions scribble on their argument: it must be the library's own copy
 
 	jsonpath.VerifEnable(true)
 	f, out := SafeParse(text, &cfg)
